@@ -64,10 +64,17 @@ func TestC04(t *testing.T) {
 	for i := 0; i < n/6; i++ {
 		cases = append(cases, mon.CaseSpec{Name: "multictx", Spec: spec{NCtx: 2 + rnd.Intn(4), NPipes: 1 + rnd.Intn(3), RetryMs: 3600000, Start: "multictx"}})
 	}
+	for i := 0; i < n/12; i++ {
+		cases = append(cases, mon.CaseSpec{Name: "answered", Spec: spec{NCtx: 1 + rnd.Intn(3), NPipes: 1 + rnd.Intn(3), RetryMs: []int{0, 30, 60, 3600000}[i%4], Start: "answered"}})
+	}
 	r.Run(cases, func(c *mon.Case) {
 		sp := c.Spec.(spec)
 		if sp.Start == "multictx" {
 			runMultiCtx(c, sp)
+			return
+		}
+		if sp.Start == "answered" {
+			runAnswered(c, sp)
 			return
 		}
 		runScript(c, sp)
